@@ -980,6 +980,20 @@ edits) and grammar (24 lines at and beyond the edges of the grammar) — corresp
         let secs = sectionize(&mut r, &defs);
         check_case(c, &mut r, "single", &secs, Stats { strict: true, canonical: false }, false);
     }
+    // ONE bfchar section of 21..100 lines (the legal maximum), codes in shuffled order, a third of the lines redefining a code
+    // of the same section: "the last definition that covers it" inside one section, whatever order the lines come in
+    for i in 0..c.n(150, 3000) {
+        let Some(mut r) = c.case("bigsection", i) else { continue };
+        let n = 21 + r.usize(80);
+        let ncodes = (n * 2 / 3).max(2);
+        let mut codes: Vec<u32> = (0x20u32..0x400).collect(); r.shuffle(&mut codes); codes.truncate(ncodes);
+        let mut defs: Vec<Def> = vec![];
+        for k in 0..n { let code = if k < ncodes { codes[k] } else { *r.pick(&codes) }; defs.push(Def::Char { code, len: 2, dst: vec![0x41 + r.below(0x500) as u16] }); }
+        r.shuffle(&mut defs);
+        let secs = vec![Sec::Cs(vec![(0, 0xFFFF, 2)]), Sec::Chars(defs)];
+        c.count("bigsection.cases");
+        check_case(c, &mut r, "bigsection", &secs, Stats { strict: true, canonical: false }, false);
+    }
     for i in 0..c.n(1600, 30000) {
         let Some(mut r) = c.case("isolated", i) else { continue };
         let defs = gen_defs(&mut r, Mode::Isolated);
